@@ -28,7 +28,9 @@ def check(ctx, node, replay):
         return True
     tol = 1e-9 * max(1.0, cond)
     try:
-        sol = hier.build(node)
+        cache = {}
+        sol = hier.build(node, cache)
+        sol._verif_cache = cache
         mod = sol.solve()
         T = impl.solved_matrix(mod, names)[0]
     except Exception as e:  # noqa
@@ -62,7 +64,58 @@ def check(ctx, node, replay):
     except Exception as e:  # noqa
         ctx.violation(f"C02:second-solve-raised-{type(e).__name__}", "second solve of the hierarchy raised", replay)
         return False
+    # edit a sub-solver in place (terminate one of its hidden free pins) and solve again: the parent must see it
+    rng = __import__("random").Random(len(flat["comps"]) * 1009 + len(flat["links"]))
+    cache = getattr(sol, "_verif_cache", None)
+    target = pick_hidden_pin(node, rng)
+    if target is not None and cache is not None:
+        sub, i, p = target
+        L = impl.lk()
+        from fractions import Fraction
+        refl = (Fraction(rng.randint(-6, 6), 8), Fraction(rng.randint(-6, 6), 8))
+        term = hier.Leaf([f"term{id(sub) % 1000}"], [0], [[refl]])
+        try:
+            real_sub = cache[id(sub)]
+            tst = L.Structure(model=hier.build(term, cache))
+            real_sub.add_structure(tst)
+            real_sub.connect(real_sub._verif_sts[i], p, tst, term.pins[0])
+            sub.children.append((term, {}))
+            sub.links.append((i, p, len(sub.children) - 1, term.pins[0]))
+            flat2 = hier.flatten_desc(node)
+            Tref2, cond2, _, _ = gen.reference_solve(flat2)
+            if cond2 <= 1e6:
+                T3 = impl.solved_matrix(sol.solve(), cs.exposed_names(flat2))[0]
+                e3 = float(np.max(np.abs(T3 - Tref2))) if T3.size else 0.0
+                if e3 > 1e-9 * max(1.0, cond2):
+                    ctx.violation("C02:stale-after-edit", f"after editing a placed sub-solver in place the parent differs from the flat circuit by {e3:.3e}", replay)
+                    return False
+            ctx.tag("edited-subsolver")
+        except Exception as e:  # noqa
+            if impl.outcome_class(e) != "singular":
+                ctx.violation(f"C02:edit-raised-{type(e).__name__}", f"editing a sub-solver and solving again raised {type(e).__name__}: {str(e)[:60]}", replay)
+                return False
     return True
+
+
+def pick_hidden_pin(node, rng):
+    """a (sub-solver description, child index, pin) whose pin is free and not exposed, below the top level"""
+    cands = []
+    seen = set()
+
+    def walk(n, top):
+        if n.kind == "leaf" or id(n) in seen:
+            return
+        seen.add(id(n))
+        if not top:
+            used = {(i, p) for (i, p, j, q) in n.links} | {(j, q) for (i, p, j, q) in n.links} | {(i, p) for (_, i, p) in n.expose}
+            for i, (ch, _) in enumerate(n.children):
+                for p in ch.pin_names():
+                    if (i, p) not in used:
+                        cands.append((n, i, p))
+        for ch, _ in n.children:
+            walk(ch, False)
+    walk(node, True)
+    return rng.choice(cands) if cands else None
 
 
 def bare_vs_wrapped(ctx):
